@@ -92,6 +92,19 @@ def check_module(res, c, T):
         res.violation(f"C02:project-type:{T}", f"project context gives {[type(x).__name__ for x in p2.modules]}", desc)
         return
     compare(res, T, "project", S_proj, build.norm_module(snapshot.snap_module(p2.modules[1], "project"), "after"), desc)
+    # (c2) an earlier clone is edited in place (embedded projects, effects, payload lists) and dropped; cloning the
+    #      untouched original AGAIN must still give the original (decoded sub-objects must not be shared between loads)
+    from . import c06 as _c06
+    import random as _random2
+    side = m.clone()
+    touched = _c06.mutate_live(api.Synth(side), _random2.Random(c.seed * 31 + c.index), 6, prefer=("/payload/project/", "/effect/", "/payload/"))
+    if touched:
+        res.count("clone_after_sibling_edit")
+        again = m.clone()
+        S_again = build.norm_module(snapshot.snap_module(again, "synth"), "after")
+        for path, x, y in snapshot.diff(build.norm_module(snapshot.snap_module(m, "synth"), "before"), S_again)[:3]:
+            res.violation(f"C02:clone-after-sibling-edit:{T}:{snapshot.field_key(path)}",
+                          f"{T}: a second clone of the untouched original differs at {path} ({x} vs {y}) after an earlier clone was edited in place {touched[:3]}", desc)
     # (d) the object has now been written several times: edit it in place and write it again
     #     (a writer that keeps bytes from an earlier save / load would replay them here)
     from . import c06
